@@ -46,12 +46,24 @@ long long c_coord2cell(long long nrows, long long ncols,
     long long nval, double * xycoords, long long * idxcell)
 {
     long long ierr, i, nx, ny;
+    double fx, fy;
     ierr = 0;
 
     for(i=0; i<nval; i++)
     {
-        nx = (long long)floor((xycoords[2*i]-xll)/csz);
-        ny = nrows-1-(long long)floor((xycoords[2*i+1]-yll)/csz);
+        fx = floor((xycoords[2*i]-xll)/csz);
+        fy = floor((xycoords[2*i+1]-yll)/csz);
+
+        /* Outside of the grid: includes nan and offsets too large
+         * to be converted to an integer */
+        if(!(fx>=0 && fx<(double)ncols && fy>=0 && fy<(double)nrows))
+        {
+            idxcell[i] = -1;
+            continue;
+        }
+
+        nx = (long long)fx;
+        ny = nrows-1-(long long)fy;
 
         if(nx<0 || nx>=ncols || ny<0 || ny>=nrows)
             idxcell[i] = -1;
